@@ -105,7 +105,7 @@ def cases(tier, seed, shard, nshards):
                 idx += 1
                 if idx % nshards == shard:
                     yield {"k": "parse_file", "doc": -2 - d, "enc": enc, "pos": pos, "stack": st}
-    for target in ("path", "stringio", "fileobj"):
+    for target in ("path", "stringio", "fileobj", "duck", "codecs", "spooled", "textwrapper"):
         for d in range(len(DOCS)):
             for pos, st in (("unparse", [["probe", "A"], ["ship", "AddEnclosingQ"]]), ("prepend", [["probe", "B"], ["probe", "A"]]), ("none", []), ("unparse", [])):
                 for fmt in (None, ["  ", 12, True, "\n", None]):
@@ -119,7 +119,7 @@ def cases(tier, seed, shard, nshards):
             yield {"k": "parse_file", "doc": r.choice(list(range(len(DOCS))) + [-1]), "enc": r.choice(["utf-8", "latin-1", "gbk", "utf-16"]),
                    "pos": r.choice(["parse_stack", "append", "none"]) if st else "none", "stack": st}
             wst = [r.choice(WATOMS) for _ in range(r.randint(0, 3))]
-            yield {"k": "write_file", "doc": r.randrange(len(DOCS)), "target": r.choice(["path", "stringio", "fileobj"]),
+            yield {"k": "write_file", "doc": r.randrange(len(DOCS)), "target": r.choice(["path", "stringio", "fileobj", "duck", "codecs", "spooled", "textwrapper"]),
                    "pos": r.choice(["unparse", "prepend"]) if wst else "none", "stack": wst,
                    "fmt": r.choice([None, ["  ", 12, True, "\n", None], ["", "auto", False, "\n\n\n", None]])}
     shapes = ["none", "empty_list", "empty_tuple", "empty_str", "same", "one_new", "list1", "list2", "list3", "tuple2", "generator2",
@@ -475,6 +475,29 @@ def check_write_file(case, ctx):
             elif target == "stringio":
                 sio = io.StringIO()
                 st_a, res = sp.escape(lambda: bibtexparser.write_file(sio, lib, **kw))
+            elif target in ("duck", "codecs", "spooled", "textwrapper"):
+                # text file objects that are not io.TextIOBase instances / not made by open(): 'file object' is duck-typed (seed C20-g)
+                import codecs
+                import tempfile
+
+                class Sink:
+                    def __init__(self):
+                        self.parts = []
+
+                    def write(self, text):
+                        if not isinstance(text, str):
+                            raise TypeError("write() argument must be str, not " + type(text).__name__)
+                        self.parts.append(text)
+                        return len(text)
+
+                    def getvalue(self):
+                        return "".join(self.parts)
+                raw_bytes = io.BytesIO()
+                sio = {"duck": Sink, "codecs": lambda: codecs.getwriter("utf-8")(raw_bytes),
+                       "spooled": lambda: tempfile.SpooledTemporaryFile(mode="w+", encoding="utf-8", newline="", max_size=1 << 30),
+                       "textwrapper": lambda: io.TextIOWrapper(raw_bytes, encoding="utf-8", newline="", write_through=True)}[target]()
+                del events[:]
+                st_a, res = sp.escape(lambda: bibtexparser.write_file(sio, lib, **kw))
             else:
                 fobj = open(p, "w", newline="")
                 del events[:]
@@ -493,8 +516,23 @@ def check_write_file(case, ctx):
             ctx.note("ill_typed_stack_both_raise")
             return []
         return [Violation("raised", f"C20:write_file:raised:{target}", dict(expected=srepr(want), got=srepr(res)))]
-    if target == "stringio":
+    if target in ("stringio", "duck"):
         written = sio.getvalue()
+    elif target in ("codecs", "textwrapper"):
+        if getattr(sio, "closed", False):
+            out.append(Violation("closed-callers-file", "C20:write_file:closed-the-callers-file-object", {}))
+            written = None
+        else:
+            sio.flush()
+            written = raw_bytes.getvalue().decode("utf-8")
+    elif target == "spooled":
+        if sio.closed:
+            out.append(Violation("closed-callers-file", "C20:write_file:closed-the-callers-file-object", {}))
+            written = None
+        else:
+            sio.seek(0)
+            written = sio.read()
+            sio.close()
     else:
         if fobj:
             if fobj.closed:
@@ -503,7 +541,7 @@ def check_write_file(case, ctx):
                 fobj.close()
         with open(p, newline="") as f:
             written = f.read()
-    if written != want or log_a != log_e:
+    if written is not None and (written != want or log_a != log_e):
         why = "stack" if log_a != log_e else "format" if fmt else "content"
         out.append(Violation("bytes-differ", f"C20:write_file:differs-from-write_string:{why}:{target}",
                              dict(target=target, stack=case["stack"], pos=case["pos"], fmt=fmt, written=written[:300], want=want[:300])))
